@@ -515,7 +515,7 @@ Section Sim.
   Definition app_proj (x : app) : Z * Z * val := (a_lset x, a_t x, a_val x).
   Definition samp_inj (p : Z * Z * Z) : Z * Z * val := let '(l, t, v) := p in (l, t, VI v).
 
-  Record sim (it : Z) (ca : cache) (apps : list app) (total added : Z) (a : abs) : Prop := mkSim {
+  Record sim (it : Z) (ca : cache) (apps : list app) (total added li : Z) (a : abs) : Prop := mkSim {
     sim_seen : forall met eid e, 0 <= met -> aget met (c_series ca) = Some eid ->
                  aget eid (c_heap ca) = Some e -> (e_last e = it <-> In met (ab_seen a));
     sim_seen_cached : forall met, In met (ab_seen a) -> aget met (c_series ca) <> None;
@@ -523,7 +523,8 @@ Section Sim.
     sim_apps : map app_proj apps = map samp_inj (ab_samples a);
     sim_rout : Forall (fun x => a_rout x = R (a_lset x)) apps;
     sim_total : total = ab_total a;
-    sim_added : added = ab_added a
+    sim_added : added = ab_added a;
+    sim_li : 0 < sample_limit c -> li = Z.of_nat (length (ab_samples a)) /\ li <= sample_limit c
   }.
 
   Record winv (it : Z) (prev0 : list (Z * Z)) (s : lstate) : Prop := mkWinv {
@@ -559,6 +560,28 @@ Section Sim.
   Lemma limited_append_err_mono s r l t v s' rout err :
     limited_append c s r l t v = (s', rout, err) -> l_limit_err s' = l_limit_err s.
   Proof. intros H. apply limited_append_apps in H. tauto. Qed.
+
+  Lemma limited_append_li s r l t x s' rout err :
+    limited_append c s r l t (VI x) = (s', rout, err) ->
+    (err = ELimit -> 0 < sample_limit c /\ sample_limit c < l_i s + 1) /\
+    (err = ENone -> 0 < sample_limit c -> l_i s' = l_i s + 1 /\ l_i s + 1 <= sample_limit c) /\
+    (err <> ELimit -> sample_limit c <= 0 -> l_i s' = l_i s).
+  Proof.
+    unfold limited_append. cbn [is_stale negb]. rewrite orb_true_r, andb_true_r.
+    destruct (0 <? sample_limit c) eqn:E0.
+    - apply Z.ltb_lt in E0. cbn [andb].
+      destruct (sample_limit c <? l_i s + 1) eqn:E1.
+      + intros [= <- <- <-]. apply Z.ltb_lt in E1. repeat split; intros; try discriminate; try lia; try congruence.
+      + apply Z.ltb_ge in E1. destruct (max_valid c <? t).
+        * intros [= <- <- <-]. repeat split; intros; try discriminate; try lia; try congruence.
+        * unfold base_append. cbn [l_store]. destruct (st_append c (l_store s) r l t) as [st' ro].
+          destruct (ro =? 0); intros [= <- <- <-]; cbn [l_i]; repeat split; intros; try discriminate; try lia; try congruence.
+    - apply Z.ltb_ge in E0. cbn [andb].
+      destruct (max_valid c <? t).
+      + intros [= <- <- <-]. repeat split; intros; try discriminate; try lia; try congruence.
+      + unfold base_append. cbn [l_store]. destruct (st_append c (l_store s) r l t) as [st' ro].
+        destruct (ro =? 0); intros [= <- <- <-]; cbn [l_i]; repeat split; intros; try discriminate; try lia; try congruence.
+  Qed.
 
   Definition seen_rel (it : Z) (ser : list (Z * Z)) (heap : list (Z * entry)) (seen : list Z) : Prop :=
     forall met eid e, 0 <= met -> aget met ser = Some eid -> aget eid heap = Some e ->
@@ -614,8 +637,13 @@ Section Sim.
       winv it prev0 s' /\
       (l_limit_err s = true -> l_limit_err s' = true) /\
       (do_entry c mut defT s en = LCont s' -> l_limit_err s' = false ->
-       sim it (l_cache s) (l_apps s) (l_total s) (l_added s) a ->
-       sim it (l_cache s') (l_apps s') (l_total s') (l_added s') (abs_entry defT a en)).
+       sim it (l_cache s) (l_apps s) (l_total s) (l_added s) (l_i s) a ->
+       sim it (l_cache s') (l_apps s') (l_total s') (l_added s') (l_i s') (abs_entry defT a en)) /\
+      (l_limit_err s = false -> l_limit_err s' = true ->
+       sim it (l_cache s) (l_apps s) (l_total s) (l_added s) (l_i s) a ->
+       0 < sample_limit c /\
+       sample_limit c < Z.of_nat (length (ab_samples (abs_entry defT a en)))) /\
+      (mut (en_met en) = MErr -> do_entry c mut defT s en = LAbort s').
   Proof.
     intros [WS WW WI WP] Hm Ht.
     unfold do_entry, abs_entry, eff_t, nots, eff_ts in *.
@@ -629,7 +657,8 @@ Section Sim.
       assert (MD : mut met = MDrop) by (eapply wf_drop_g; eauto).
       split; [constructor; cbn; auto; apply wf_set_dropped; auto|].
       split; [cbn; auto|].
-      intros _ _ S. rewrite MD. destruct S. constructor; cbn; auto; lia. }
+      split; [intros _ _ S; rewrite MD; destruct S; constructor; cbn; auto; lia|].
+      split; [cbn; intros E1 E2; congruence|rewrite MD; discriminate]. }
     unfold cache_get.
     destruct (aget met (c_series (l_cache s))) as [eid|] eqn:ES.
     - (* cached *)
@@ -648,9 +677,10 @@ Section Sim.
         apply andb_prop in EDUP as [EL EN]. apply Z.eqb_eq in EL.
         eexists. split; [left; reflexivity|].
         split; [constructor; cbn; auto|]. split; [cbn; auto|].
+        split; [|split; [cbn; intros E1 E2; congruence|rewrite MK; discriminate]].
         intros _ _ S. rewrite MK, EN.
         assert (IM : In met (ab_seen a)).
-        { destruct (sim_seen _ _ _ _ _ _ S met eid e Hm ES HE) as [X _]. apply X. congruence. }
+        { destruct (sim_seen _ _ _ _ _ _ _ S met eid e Hm ES HE) as [X _]. apply X. congruence. }
         assert (HM : memb met (ab_seen a) = true) by now apply memb_In.
         rewrite HM. cbn [andb].
         destruct S. constructor; cbn; auto; try lia.
@@ -659,13 +689,22 @@ Section Sim.
         destruct (limited_append c (with_cache (inc_total s) ca1) (e_ref e) (e_lset e) t (VI (en_val en)))
           as [[s2 rout] err] eqn:EA.
         pose proof (limited_append_err_mono _ _ _ _ _ _ _ _ EA) as EM.
+        pose proof (limited_append_li _ _ _ _ _ _ _ _ EA) as (LI1 & LI2 & LI3).
+        cbn [l_i with_cache inc_total] in LI1, LI2, LI3.
         apply limited_append_inb in EA; auto.
         cbn [l_cache l_store l_apps l_total l_added l_sadded l_limit_err with_cache inc_total] in EA, EM.
         destruct EA as (A1 & A2 & A3 & A4 & A5 & [(-> & A6 & A7)|(-> & -> & A6 & A7 & A8 & A9)]).
         * (* sample limit *)
           eexists. split; [left; reflexivity|].
           split; [constructor; cbn; rewrite ?A1, ?A7; auto|].
-          split; [cbn; auto|]. cbn. discriminate.
+          split; [cbn; auto|]. split; [cbn; discriminate|]. split; [|rewrite MK; discriminate].
+          intros _ _ S. rewrite MK. destruct (LI1 eq_refl) as [L0 L1]. split; auto.
+          assert (ND : (match pts with Some _ => false | None => true end && memb met (ab_seen a)) = false).
+          { destruct (match pts with Some _ => false | None => true end) eqn:EN; auto. cbn [andb].
+            rewrite andb_true_r in EDUP. apply Z.eqb_neq in EDUP.
+            destruct (memb met (ab_seen a)) eqn:EMB; auto. apply memb_In in EMB.
+            exfalso. apply EDUP. destruct (sim_seen _ _ _ _ _ _ _ S met eid e Hm ES HE) as [_ X]. rewrite WI. now apply X. }
+          rewrite ND. cbn [ab_samples length]. destruct (sim_li _ _ _ _ _ _ _ S L0) as [X _]. lia.
         * destruct (R (e_lset e) =? 0) eqn:E0; [apply Z.eqb_eq in E0; now apply R_nz in E0|].
           assert (UR : update_ref (l_cache s2) eid (R (e_lset e)) = ca1).
           { rewrite A1. unfold update_ref. rewrite HG1. cbn [e_ref e1]. rewrite HR, Z.eqb_refl. reflexivity. }
@@ -678,12 +717,13 @@ Section Sim.
           eexists. split; [left; reflexivity|].
           split; [constructor; cbn [l_cache l_store inc_added with_cache]; auto; destruct trk; cbn; auto|].
           split; [cbn; congruence|].
+          split; [|split; [cbn; intros E1 E2; congruence|rewrite MK; discriminate]].
           intros _ _ S. rewrite MK.
           assert (ND : (match pts with Some _ => false | None => true end && memb met (ab_seen a)) = false).
           { destruct (match pts with Some _ => false | None => true end) eqn:EN; auto. cbn [andb].
             rewrite andb_true_r in EDUP. apply Z.eqb_neq in EDUP.
             destruct (memb met (ab_seen a)) eqn:EMB; auto. apply memb_In in EMB.
-            exfalso. apply EDUP. destruct (sim_seen _ _ _ _ _ _ S met eid e Hm ES HE) as [_ X]. rewrite WI. now apply X. }
+            exfalso. apply EDUP. destruct (sim_seen _ _ _ _ _ _ _ S met eid e Hm ES HE) as [_ X]. rewrite WI. now apply X. }
           rewrite ND. destruct S.
           constructor; cbn [l_cache l_apps l_total l_added inc_added with_cache ab_seen ab_samples ab_tracked ab_total ab_added]; try lia.
           -- assert (SR : seen_rel it (c_series ca1) (c_heap ca1) (met :: ab_seen a)).
@@ -698,17 +738,26 @@ Section Sim.
              ++ exact sim_tracked0.
           -- rewrite A6. cbn. unfold app_proj at 1. cbn. now rewrite sim_apps0.
           -- rewrite A6. constructor; auto.
+          -- intros L0. destruct (LI2 eq_refl L0) as [X Y]. destruct (sim_li0 L0) as [Z1 Z2].
+             cbn [length l_i inc_added with_cache]. rewrite X. lia.
     - (* not cached *)
       cbv beta iota zeta.
       destruct (mut met) as [l| |] eqn:MM.
       + destruct (limited_append c (inc_total s) 0 l t (VI (en_val en))) as [[s2 rout] err] eqn:EA.
         pose proof (limited_append_err_mono _ _ _ _ _ _ _ _ EA) as EM.
+        pose proof (limited_append_li _ _ _ _ _ _ _ _ EA) as (LI1 & LI2 & LI3).
+        cbn [l_i with_cache inc_total] in LI1, LI2, LI3.
         apply limited_append_inb in EA; auto.
         cbn [l_cache l_store l_apps l_total l_added l_sadded l_limit_err with_cache inc_total] in EA, EM.
         destruct EA as (A1 & A2 & A3 & A4 & A5 & [(-> & A6 & A7)|(-> & -> & A6 & A7 & A8 & A9)]).
         * eexists. split; [left; reflexivity|].
           split; [constructor; cbn; rewrite ?A1, ?A7; auto|].
-          split; [cbn; auto|]. cbn. discriminate.
+          split; [cbn; auto|]. split; [cbn; discriminate|]. split; [|discriminate].
+          intros _ _ S. destruct (LI1 eq_refl) as [L0 L1]. split; auto.
+          assert (ND : (match pts with Some _ => false | None => true end && memb met (ab_seen a)) = false).
+          { destruct (memb met (ab_seen a)) eqn:EMB; [|apply andb_false_r]. apply memb_In in EMB.
+            exfalso. eapply (sim_seen_cached _ _ _ _ _ _ _ S); eauto. }
+          rewrite ND. cbn [ab_samples length]. destruct (sim_li _ _ _ _ _ _ _ S L0) as [X _]. lia.
         * destruct (R l =? 0) eqn:E0; [apply Z.eqb_eq in E0; now apply R_nz in E0|].
           cbn [negb andb].
           assert (WWs : cache_wf mut rep (l_cache s2) (l_store s2)).
@@ -733,10 +782,12 @@ Section Sim.
               constructor; cbn [l_cache l_store inc_added inc_sadded with_cache]; auto; destruct trk; cbn; auto. }
           split.
           { cbn [l_limit_err with_cache]. intros H. rewrite <- EM in H. rewrite H. cbn. congruence. }
+          split; [|split; [|discriminate]].
+          2:{ intros E1 E2 _. exfalso. cbn [l_limit_err with_cache] in E2. rewrite EM, E1 in E2. cbn in E2. congruence. }
           intros _ _ S.
           assert (ND : (match pts with Some _ => false | None => true end && memb met (ab_seen a)) = false).
           { destruct (memb met (ab_seen a)) eqn:EMB; [|apply andb_false_r]. apply memb_In in EMB.
-            exfalso. eapply (sim_seen_cached _ _ _ _ _ _ S); eauto. }
+            exfalso. eapply (sim_seen_cached _ _ _ _ _ _ _ S); eauto. }
           rewrite ND. destruct S.
           assert (CA : l_cache (inc_added
                    (if l_limit_err (with_cache s2 (if trk then track ca2 (R l) eid else ca2))
@@ -765,14 +816,18 @@ Section Sim.
           -- destruct (l_limit_err _); cbn; rewrite A6; constructor; auto.
           -- destruct (l_limit_err _); cbn; lia.
           -- destruct (l_limit_err _); cbn; lia.
+          -- intros L0. destruct (LI2 eq_refl L0) as [X Y]. destruct (sim_li0 L0) as [Z1 Z2].
+             cbn [length ab_samples]. destruct (l_limit_err _); cbn [l_i inc_added inc_sadded with_cache]; rewrite X; lia.
       + (* addDropped *)
         eexists. split; [left; reflexivity|].
         split; [constructor; cbn; auto; apply wf_set_dropped; auto|].
         split; [cbn; auto|].
-        intros _ _ S. destruct S. constructor; cbn; auto; lia.
+        split; [intros _ _ S; destruct S; constructor; cbn; auto; lia|].
+        split; [cbn; intros E1 E2; congruence|discriminate].
       + (* rejected series: the scrape fails *)
         eexists. split; [right; split; reflexivity|].
-        split; [constructor; cbn; auto|]. split; [cbn; auto|]. discriminate.
+        split; [constructor; cbn; auto|]. split; [cbn; auto|]. split; [discriminate|].
+        split; [cbn; intros E1 E2; congruence|reflexivity].
   Qed.
 End Sim.
 
@@ -785,6 +840,14 @@ Section Steps.
   Definition entry_ok (defT : Z) (en : body_entry) : Prop :=
     0 <= en_met en /\ inb (eff_t c defT en).
 
+  Lemma samples_mono defT es : forall a,
+    (length (ab_samples a) <= length (ab_samples (fold_left (abs_entry c mut defT) es a)))%nat.
+  Proof.
+    induction es as [|en r IH]; intros a; cbn [fold_left]; auto.
+    eapply Nat.le_trans; [|apply IH]. unfold abs_entry.
+    destruct (mut (en_met en)); cbn; auto. destruct (_ && _); cbn; auto.
+  Qed.
+
   Lemma run_entries_sim it prev0 defT es : forall s a,
     winv mut rep it prev0 s -> Forall (entry_ok defT) es ->
     exists s',
@@ -793,22 +856,35 @@ Section Steps.
       winv mut rep it prev0 s' /\
       (l_limit_err s = true -> l_limit_err s' = true) /\
       (run_entries c mut defT s es = LCont s' -> l_limit_err s' = false ->
-       sim it (l_cache s) (l_apps s) (l_total s) (l_added s) a ->
-       sim it (l_cache s') (l_apps s') (l_total s') (l_added s') (fold_left (abs_entry c mut defT) es a)).
+       sim c it (l_cache s) (l_apps s) (l_total s) (l_added s) (l_i s) a ->
+       sim c it (l_cache s') (l_apps s') (l_total s') (l_added s') (l_i s') (fold_left (abs_entry c mut defT) es a)) /\
+      (run_entries c mut defT s es = LCont s' -> l_limit_err s = false -> l_limit_err s' = true ->
+       sim c it (l_cache s) (l_apps s) (l_total s) (l_added s) (l_i s) a ->
+       0 < sample_limit c /\
+       sample_limit c < Z.of_nat (length (ab_samples (fold_left (abs_entry c mut defT) es a)))) /\
+      (Exists (fun en => mut (en_met en) = MErr) es -> exists s'', run_entries c mut defT s es = LAbort s'').
   Proof.
     induction es as [|en r IH]; intros s a W F.
-    - exists s. cbn. split; [now left|]. split; [exact W|]. split; [auto|]. intros _ _ S; exact S.
+    - exists s. cbn. split; [now left|]. split; [exact W|]. split; [auto|]. split; [intros _ _ S; exact S|].
+      split; [intros _ E1 E2; congruence|]. intros EX; inversion EX.
     - inversion F as [|? ? [Hm Ht] F']; subst.
-      destruct (do_entry_sim c mut rep it prev0 defT s a en W Hm Ht) as (s1 & HD & W1 & M1 & S1).
+      destruct (do_entry_sim c mut rep it prev0 defT s a en W Hm Ht) as (s1 & HD & W1 & M1 & S1 & L1 & A1).
       cbn [run_entries fold_left].
       destruct HD as [HD|[HD ME]]; rewrite HD.
-      + destruct (IH s1 (abs_entry c mut defT a en) W1 F') as (s2 & HR & W2 & M2 & S2).
-        exists s2. split; [|split; [exact W2|split; [auto|]]].
+      + destruct (IH s1 (abs_entry c mut defT a en) W1 F') as (s2 & HR & W2 & M2 & S2 & L2 & A2).
+        exists s2. split; [|split; [exact W2|split; [auto|split; [|split]]]].
         * destruct HR as [HR|[HR EX]]; [left; exact HR|right; split; [exact HR|now right]].
         * intros HR2 HL SI. apply S2; auto. apply S1; auto.
           destruct (l_limit_err s1) eqn:E1; auto. rewrite M2 in HL; auto.
+        * intros HR2 E0 E2 SI. destruct (l_limit_err s1) eqn:E1.
+          -- destruct (L1 E0 eq_refl SI) as [X Y]. split; auto.
+             pose proof (samples_mono defT r (abs_entry c mut defT a en)). lia.
+          -- apply L2; auto.
+        * intros EX. inversion EX as [? ? H|? ? H]; subst.
+          -- rewrite (A1 H) in HD. discriminate.
+          -- apply A2. exact H.
       + exists s1. split; [right; split; [reflexivity|now left]|]. split; [exact W1|]. split; [exact M1|].
-        discriminate.
+        split; [discriminate|]. split; [discriminate|]. intros _. eauto.
   Qed.
 
   Lemma stale_appends_ok limited defT : forall l s,
@@ -1138,11 +1214,12 @@ Section StepTheorems.
   Lemma winv_fresh ca st : ginv mut rep (ca, st) -> winv mut rep (c_iter ca) (c_prev ca) (fresh ca st).
   Proof. intros [G1 G2 G3 G4]. constructor; cbn; auto. Qed.
 
-  Lemma sim_fresh ca st : ginv mut rep (ca, st) -> sim (c_iter ca) ca [] 0 0 abs0.
+  Lemma sim_fresh ca st : ginv mut rep (ca, st) -> sim c (c_iter ca) ca [] 0 0 0 abs0.
   Proof.
     intros [G1 G2 G3 G4]. cbn [fst snd] in *. constructor; cbn; auto.
     - intros met eid e Hm Hs He. pose proof (G4 _ _ _ Hm (aget_In _ _ _ Hs) He). split; [lia|tauto].
     - intros l. rewrite G3. cbn. split; [discriminate|tauto].
+    - intros L0. split; lia.
   Qed.
 
   (* a body that scrapeLoop.append accepts *)
@@ -1168,7 +1245,7 @@ Section StepTheorems.
     set (t := st_time sp) in *.
     unfold append_body.
     destruct (run_entries_sim c mut rep (c_iter ca) (c_prev ca) t es (fresh ca st) abs0 (winv_fresh _ _ G) HE)
-      as (s1 & HR & W1 & _ & S1).
+      as (s1 & HR & W1 & _ & S1 & _ & _).
     destruct HR as [HR|[HR _]]; rewrite HR.
     2:{ cbn. intros _ NF. exfalso. apply NF. split; auto. }
     destruct (l_limit_err s1) eqn:ELIM.
@@ -1193,7 +1270,7 @@ Section StepTheorems.
     fold s3. rewrite E4. intros [= <- <-] _.
     set (mk := map (fun p : Z * Z => mkApp (fst p) (snd p) t VStale (fst p)) (stale_list (l_cache s1))) in *.
     exists (rev (l_apps s1)), mk, new, (l_sadded s2).
-    destruct S1 as [s_seen s_cached s_tracked s_apps s_rout s_total s_added].
+    destruct S1 as [s_seen s_cached s_tracked s_apps s_rout s_total s_added s_li].
     split.
     { unfold batch_of. rewrite A4. cbn [l_apps s3 with_cache]. rewrite A2.
       rewrite !rev_app_distr, !rev_involutive. now rewrite app_assoc. }
@@ -1230,7 +1307,7 @@ Section StepTheorems.
     assert (W1 : store_ok (l_store s1) /\ cache_wf mut rep (l_cache s1) (l_store s1)).
     { unfold append_body in EA.
       destruct (run_entries_sim c mut rep (c_iter ca) (c_prev ca) t es (fresh ca st) abs0 (winv_fresh _ _ G) HE)
-        as (s0 & HR & [WS WW WI WP] & _ & _).
+        as (s0 & HR & [WS WW WI WP] & _ & _ & _ & _).
       destruct HR as [HR|[HR _]]; rewrite HR in EA.
       2:{ injection EA as <-. auto. }
       destruct bad; [injection EA as <-; auto|].
@@ -1243,6 +1320,50 @@ Section StepTheorems.
                 WS WW HT (report_vals_idx c _ _ _ _ _))
       as (ca2 & st2 & mk & reps & EF2 & GI & _).
     rewrite EF2 in H. injection H as <- _. exact GI.
+  Qed.
+
+  (* when scrapeLoop.append accepts a body, in terms of the body alone *)
+  Definition body_accepts (t : Z) (es : list body_entry) (bad : bool) : Prop :=
+    bad = false /\
+    Forall (fun en => mut (en_met en) <> MErr) es /\
+    (0 < sample_limit c ->
+     Z.of_nat (length (ab_samples (abs_body c mut t es))) <= sample_limit c).
+
+  Lemma accept_iff S sp es bad len :
+    ginv mut rep S -> step_ok sp -> st_out sp = OBody es bad len -> len <> 0 ->
+    (~ step_failed c mut S sp <-> body_accepts (st_time sp) es bad).
+  Proof.
+    intros G (HG & HT & HE) HO HL. destruct S as [ca st].
+    unfold step_failed, body_accepts. cbn [fst snd]. rewrite HO in *. rewrite HG, st_gc_nil.
+    set (t := st_time sp) in *. unfold append_body.
+    destruct (run_entries_sim c mut rep (c_iter ca) (c_prev ca) t es (fresh ca st) abs0 (winv_fresh _ _ G) HE)
+      as (s1 & HR & W1 & _ & S1 & L1 & A1).
+    fold (abs_body c mut t es) in S1, L1.
+    assert (NOERR : (exists s'', run_entries c mut t (fresh ca st) es = LAbort s'') \/
+                    Forall (fun en => mut (en_met en) <> MErr) es).
+    { destruct (Exists_dec (fun en => mut (en_met en) = MErr) es) as [EX|NEX].
+      - intros en. destruct (mut (en_met en)); [right|right|left]; congruence.
+      - left. now apply A1.
+      - right. apply Forall_Exists_neg. exact NEX. }
+    destruct HR as [HR|[HR EX]].
+    - rewrite HR. destruct W1 as [WS WW WI WP].
+      destruct (stale_list_facts mut rep (l_cache s1) (l_store s1) WW) as [SF SL].
+      destruct (stale_appends_ok c true t (stale_list (l_cache s1)) s1 WS HT SF) as (s2 & E2 & _).
+      assert (NF : Forall (fun en => mut (en_met en) <> MErr) es).
+      { destruct NOERR as [[s'' E]|F]; auto. congruence. }
+      destruct bad.
+      { cbn. split; [intros NFL; exfalso; apply NFL; auto|intros [X _]; discriminate]. }
+      destruct (l_limit_err s1) eqn:ELIM.
+      + cbn. split; [intros NFL; exfalso; apply NFL; auto|].
+        intros (_ & _ & LIM). destruct (L1 HR eq_refl eq_refl (sim_fresh _ _ G)) as [X Y].
+        specialize (LIM X). lia.
+      + rewrite E2. cbn. split.
+        * intros _. split; auto. split; auto. intros L0.
+          destruct (sim_li _ _ _ _ _ _ _ _ (S1 HR eq_refl (sim_fresh _ _ G)) L0) as [X Y]. lia.
+        * intros _ [_ X]. discriminate.
+    - rewrite HR. cbn. split; [intros NFL; exfalso; apply NFL; auto|].
+      intros (_ & NF & _). exfalso. rewrite Forall_forall in NF. apply Exists_exists in EX.
+      destruct EX as (en & I & E). now apply (NF en I).
   Qed.
 
   Lemma step_ginv S sp : ginv mut rep S -> step_ok sp -> ginv mut rep (fst (do_step c mut rep S sp)).
